@@ -29,6 +29,11 @@ def timeline(gaps):
 def _cases(tier, rng):
     yield {'kind': 'mux', 'term': [['time_split', {'time': ['id'], 'active': 5, 'inactive': 3, 'closing': None, 'include': True}, [['to_list']]]],
            'items': [1, 2, 3, 4, 5, 6, 10, 12]}
+    # sub-second timestamps whose gaps equal a timeout exactly (datetime + timedelta is exact; binary floating point is not)
+    for aa, bb in ((None, 2), (7, None), (7, 2)):
+        cfg = {'time': ['id'], 'active': aa, 'inactive': bb, 'closing': None, 'include': True, 'datetime': 'ms'}
+        yield {'kind': 'mux', 'term': [['time_split', cfg, [['to_list']]]], 'items': [4, 6, 9, 16, 18, 19, 21, 28]}
+        yield {'kind': 'mux', 'term': [['group_by', ['mod', 2], [['time_split', cfg, [['to_list']]]]]], 'items': [4, 6, 7, 8, 9, 10, 16, 17, 23]}
     a, b = 5, 3
     gapset = sorted(set([0, b - 1, b, b + 1, a - 1, a, a + 1]))
     combos = [(a, b), (a, None), (None, b), (None, None)]
@@ -43,7 +48,7 @@ def _cases(tier, rng):
                         continue
                     cfg = {'time': ['id'], 'active': aa, 'inactive': bb, 'closing': closing, 'include': incl}
                     if rng.random() < 0.3:
-                        cfg['datetime'] = True
+                        cfg['datetime'] = rng.choice([True, 'ms'])
                     yield {'kind': 'mux', 'term': [['time_split', cfg, [['to_list']]]], 'items': timeline((1,) + gaps)}
                     if closing is not None and rng.random() < 0.25:
                         # the very first item of the key is itself a closing item
@@ -53,7 +58,7 @@ def _cases(tier, rng):
         cfg = {'time': ['id'], 'active': rng.choice([None, 2, 3, 5, 0]), 'inactive': rng.choice([None, 1, 2, 3]),
                'closing': rng.choice([None, ['mod_eq', 4, 3], ['is_even'], ['mod_eq', 3, 0]]), 'include': rng.random() < 0.5}
         if rng.random() < 0.25:
-            cfg['datetime'] = True
+            cfg['datetime'] = rng.choice([True, 'ms'])
         g = muxgen.Gen(rng, {'nest': 0})
         inner, _ = g.pipe('int', 0)
         if rng.random() < 0.5:
@@ -91,4 +96,7 @@ def cases(tier, rng):
 
 
 def oracle(case, r):
-    return muxprop.prelude_violation(case, r) or _oracle(case, r)
+    v = muxprop.prelude_violation(case, r)
+    if v or case.get('share'):
+        return v        # the shared-operator variant wraps the pipeline in a tee_map: judged against separately built operators only
+    return _oracle(case, r)
